@@ -117,6 +117,21 @@ func genMulti(c *Case, r *simrt.Rand, tier string) {
 		c.Drivers = append(c.Drivers, prog)
 		c.Flags["childOnlyWriter"] = true
 	}
+	if (c.Prop == "C16" || c.Prop == "C17") && r.Chance(0.15) {
+		// a burst of asynchronous notifications (more than the merger's ping
+		// queue holds) from one or two drivers
+		for d, nd := 0, 1+r.Intn(2); d < nd; d++ {
+			var prog []Op
+			for i, n := 0, 8+r.Intn(20); i < n; i++ {
+				prog = append(prog, Op{Kind: "notify", S: pick(r, []string{"", "", "mergeAll"})})
+				if r.Chance(0.1) {
+					prog = append(prog, Op{Kind: "pause", N: 1 + r.Intn(40)})
+				}
+			}
+			c.Drivers = append(c.Drivers, prog)
+		}
+		c.Flags["notifyStorm"] = true
+	}
 	if c.Prop == "C16" && r.Chance(0.12) {
 		// a writer whose Merge operations the operator refuses: every merger
 		// cycle that meets them fails.  Calls must still return and Close must
